@@ -45,7 +45,7 @@ ALLOWED = {"G13": {4}}
 
 
 # --------------------------------------------------------------------------- generator
-def add_subs(rng, c, stall=False):
+def add_subs(rng, c, stall=False, unsub=False):
     nodes = c["nodes"]
     ops = []
     subs = {n: set() for n in nodes}
@@ -109,6 +109,21 @@ def add_subs(rng, c, stall=False):
                 for it in b["batch"]:
                     if it["del"]:
                         it["v"] = 0
+    if unsub:
+        # a subscriber is disconnected while its handler is mid-callback; > 600 forwarded requests go
+        # by while the disconnect is pending; changes keep arriving; the others must be handed all
+        n = rng.choice(nodes)
+        victim = sub(n, filt=False)
+        fast = [sub(n, filt=False)] + ([sub(n, filt=True)] if rng.random() < 0.5 else [])
+        other = rng.choice([m for m in nodes if m != n] + [9])
+
+        def inj(i):
+            d = rng.random() < 0.2
+            return {"op": "inject", "n": n, "sender": other,
+                    "batch": [{"k": rng.choice(K.XKEYS), "ver": 200 + i, "lh": 7, "del": d, "v": 0 if d else rng.randrange(1, 90)}]}
+        ops += [victim] + fast + [inj(0), {"op": "unsub_begin", "n": n, "s": victim["s"], "count": rng.choice([700, 760])}]
+        ops += [inj(i) for i in range(1, rng.randrange(4, 7))]
+        ops += [{"op": "unsub_end", "n": n, "s": victim["s"]}, inj(9), inj(10)]
     c = dict(c)
     c["ops"] = ops
     return c
@@ -133,7 +148,7 @@ def gen_case(rng):
     c = K.add_ctrfaults(rng, c, p=0.25)
     c = K.add_faults(rng, c, p=0.3)
     c = K.add_cancels(rng, c, p=0.4)
-    c = add_subs(rng, c, stall=rng.random() < 0.14)
+    c = add_subs(rng, c, stall=rng.random() < 0.14, unsub=rng.random() < 0.025)
     c["fam"] = fam
     return c
 
